@@ -66,6 +66,7 @@ YmRoute(r) ==
     [] r.k = "partial" -> YmFromPartial(r.p, r.ovf)
     [] r.k = "new" -> YmNew(r.y, r.m, Sup(r, "rd"), Fld(r, "rd", 1), r.ovf)
     [] r.k = "with" -> WithYm(r.recv, r.p, r.ovf)
+    [] r.k = "default" -> Ok(YMV(1970, 1, 1))
 Explicit(r) == r.k = "new" /\ Sup(r, "rd")
 
 (* ---------------- construction routes of a month-day ---------------- *)
@@ -92,6 +93,7 @@ MdRoute(r) ==
   CASE r.k = "str" -> MdFromString(r)
     [] r.k = "date" -> MdFromDate(r.d)
     [] r.k = "new" -> MdNew(r.m, r.d, Sup(r, "ry"), Fld(r, "ry", RefYear), r.ovf)
+    [] r.k = "default" -> Ok(MDV(1, 1, RefYear))
 MdExplicit(r) == r.k = "new" /\ Sup(r, "ry")
 
 (* ---------------- comparison / equality of two values ---------------- *)
